@@ -14,6 +14,15 @@ FIFTHS = "FCGDAEB"
 
 
 # ---------------------------------------------------------------------------------- names
+class SubStr(str):
+    """a name handed over as an instance of a str subclass (numpy.str_, a user's NoteName(str) ...): still that name"""
+
+
+class NamedStr(str):
+    """... of one that also carries a `name` attribute saying something else (a str-valued Enum member does)"""
+    name = "G"
+
+
 def valid(name):
     if not isinstance(name, str) or name == "":
         return False
